@@ -414,3 +414,35 @@ pub fn big_needle_sets(ctx: &mut Ctx, tag: &str) {
         }
     }
 }
+
+/// `of(k, 2)` / `of(k, 3)` / `all(k)` over lists of 40 to 130 members, in several rotations and with
+/// two members swapped, against values that hold exactly the members at two or three written
+/// positions (1, 32, 33, 64, 65 … apart): the count — hence the verdict — does not depend on where
+/// in the list the matching members stand.
+pub fn long_list_rotations(ctx: &mut Ctx, tag: &str) {
+    for n in [40usize, 64, 70, 130] {
+        let needle = |i: usize| format!("<k{:03}>", i);
+        let base: Vec<usize> = (0..n).collect();
+        let gaps = [1usize, 16, 31, 32, 33, 63, 64, 65];
+        let mut picks: Vec<Vec<usize>> = vec![];
+        for g in gaps {
+            if 3 + g < n { picks.push(vec![3, 3 + g]); }
+            if 3 + 2 * g < n { picks.push(vec![3, 3 + g, 3 + 2 * g]); }
+        }
+        let docs: Vec<Yaml> = picks.iter().map(|p| map1("name", ys(&p.iter().map(|i| needle(*i)).collect::<Vec<_>>().join(" ")))).collect();
+        for (key, k) in [("of(name, 2)", 2usize), ("of(name, 3)", 3)] {
+            let want: Vec<bool> = picks.iter().map(|p| p.len() >= k).collect();
+            let mut orders: Vec<Vec<usize>> = vec![base.clone()];
+            for rot in [1usize, 7, 31, 32, 33] {
+                if rot < n { let mut o = base.clone(); o.rotate_left(rot); orders.push(o); }
+            }
+            let mut sw = base.clone(); sw.swap(4, (35).min(n - 1)); orders.push(sw);
+            let mut rev = base.clone(); rev.reverse(); orders.push(rev);
+            for o in orders {
+                let list = Yaml::Sequence(o.iter().map(|i| ys(&format!("*{}*", needle(*i)))).collect());
+                let det = vec![("A".to_string(), map1(key, list)), ("condition".to_string(), ys("A"))];
+                strict(ctx, &case(det, docs.clone(), vec![0, 15]), Some(&want), &format!("{}: {} over {} members starting with member {}", tag, key, n, o[0]));
+            }
+        }
+    }
+}
